@@ -14,8 +14,8 @@ EXTRACT_DIR = os.path.join(VERIF, "tools", "extract")
 EXTRACT_BIN = os.path.join(EXTRACT_DIR, "target", "release", "orx-extract")
 CONTRACTS = os.path.join(VERIF, "contracts")
 KANI_DIR = os.path.join(VERIF, "kani")
-EVIDENCE = os.path.join(VERIF, "evidence")
-REPLAYS = os.path.join(VERIF, "replays")
+EVIDENCE = os.environ.get("VERIF_EVIDENCE_DIR", os.path.join(VERIF, "evidence"))
+REPLAYS = os.environ.get("VERIF_REPLAYS_DIR", os.path.join(VERIF, "replays"))
 KNOWN = os.path.join(VERIF, "known_findings.json")
 
 OFFLINE_ENV = {"CARGO_NET_OFFLINE": "true"}
